@@ -126,4 +126,7 @@ pub struct HyraxProof<G: AffineRepr> {
     pub z_d: G::ScalarField,
     /// Auxiliary random scalar
     pub z_b: G::ScalarField,
+    /// Randomness of `com_eval`, so that the verifier can open it to the
+    /// claimed evaluation
+    pub r_eval: G::ScalarField,
 }
